@@ -11,8 +11,9 @@ import sys
 
 os.environ.setdefault("EYECITE_VERIF", "1")  # guard name recorded in MANIFEST.hooks (no hooks exist)
 
-if "/repo" not in sys.path:
-    sys.path.insert(0, "/repo")
+# /repo by default; background sweeps started with `vp run --with-repo` point this at their snapshot
+REPO = os.path.realpath(os.environ.get("VERIF_REPO") or "/repo")
+sys.path.insert(0, REPO)
 
 import logging  # noqa: E402
 
@@ -20,7 +21,7 @@ logging.disable(logging.CRITICAL)  # eyecite logs "Unknown overlap case" warning
 
 import eyecite  # noqa: E402
 
-assert os.path.realpath(eyecite.__file__).startswith("/repo/"), eyecite.__file__
+assert os.path.realpath(eyecite.__file__).startswith(REPO + "/"), eyecite.__file__
 
 from eyecite import annotate_citations, clean_text, get_citations, resolve_citations  # noqa: E402,F401
 from eyecite import models as M  # noqa: E402
